@@ -34,7 +34,30 @@ pub struct Ledger;
 /// C guests: the host itself and, through `vh_malloc` and friends, the guest)
 #[global_allocator]
 static LEDGER: Ledger = Ledger;
-type Live = BTreeMap<usize, (usize, usize, bool)>;
+/// live blocks: address -> (size, align), the guest's and the host's kept apart (the host's can be many)
+#[derive(Default)]
+struct Live {
+    guest: BTreeMap<usize, (usize, usize)>,
+    host: BTreeMap<usize, (usize, usize)>,
+}
+impl Live {
+    fn insert(&mut self, a: usize, v: (usize, usize, bool)) {
+        if v.2 { self.guest.insert(a, (v.0, v.1)); } else { self.host.insert(a, (v.0, v.1)); }
+    }
+    fn remove(&mut self, a: &usize) -> Option<(usize, usize, bool)> {
+        if let Some(x) = self.guest.remove(a) { return Some((x.0, x.1, true)); }
+        self.host.remove(a).map(|x| (x.0, x.1, false))
+    }
+    fn get(&self, a: &usize) -> Option<(usize, usize, bool)> {
+        if let Some(x) = self.guest.get(a) { return Some((x.0, x.1, true)); }
+        self.host.get(a).map(|x| (x.0, x.1, false))
+    }
+    fn below(&self, addr: usize) -> Option<(usize, usize)> {
+        let g = self.guest.range(..=addr).next_back().map(|(a, x)| (*a, x.0));
+        let h = self.host.range(..=addr).next_back().map(|(a, x)| (*a, x.0));
+        match (g, h) { (Some(a), Some(b)) => Some(if a.0 > b.0 { a } else { b }), (a, b) => a.or(b) }
+    }
+}
 static LIVE: Mutex<Option<Live>> = Mutex::new(None);
 static GUEST: std::sync::atomic::AtomicBool = std::sync::atomic::AtomicBool::new(false);
 thread_local! { static IN_LEDGER: std::cell::Cell<bool> = const { std::cell::Cell::new(false) }; }
@@ -48,7 +71,7 @@ fn with_live<R>(f: impl FnOnce(&mut Live) -> R) -> Option<R> {
             g.set(true);
             let r = {
                 let mut l = LIVE.lock().unwrap();
-                let m = l.get_or_insert_with(BTreeMap::new);
+                let m = l.get_or_insert_with(Live::default);
                 f(m)
             };
             g.set(false);
@@ -58,9 +81,72 @@ fn with_live<R>(f: impl FnOnce(&mut Live) -> R) -> Option<R> {
         .flatten()
 }
 
+// ---- optional low-address arena (VERIF_LOW_ARENA=1): every block lives below 2 GiB, so that a pointer survives the
+// round trip through an `i32` core value.  Generated bindings pass the representation pointer of an exported resource as
+// an i32 (it IS 32 bits wide on wasm32); natively that only works if the heap is low.  Bump allocation, no reuse.
+static ARENA_BASE: std::sync::atomic::AtomicUsize = std::sync::atomic::AtomicUsize::new(0);
+static ARENA_TOP: std::sync::atomic::AtomicUsize = std::sync::atomic::AtomicUsize::new(0);
+const ARENA_SIZE: usize = 1 << 28;
+unsafe extern "C" {
+    fn mmap(addr: *mut u8, len: usize, prot: i32, flags: i32, fd: i32, off: i64) -> *mut u8;
+    fn getenv(name: *const u8) -> *const u8;
+}
+
+fn arena() -> usize {
+    use std::sync::atomic::Ordering::*;
+    let b = ARENA_BASE.load(Acquire);
+    if b != 0 {
+        return if b == 1 { 0 } else { b };
+    }
+    let want = unsafe { !getenv(b"VERIF_LOW_ARENA\0".as_ptr()).is_null() };
+    if !want {
+        ARENA_BASE.store(1, Release);
+        return 0;
+    }
+    // PROT_READ|PROT_WRITE, MAP_PRIVATE|MAP_ANONYMOUS|MAP_32BIT|MAP_NORESERVE
+    let p = unsafe { mmap(std::ptr::null_mut(), ARENA_SIZE, 3, 0x02 | 0x20 | 0x40 | 0x4000, -1, 0) } as usize;
+    if p == usize::MAX || p == 0 || p + ARENA_SIZE > (1usize << 32) {
+        ARENA_BASE.store(1, Release);
+        return 0;
+    }
+    ARENA_TOP.store(p, Release);
+    ARENA_BASE.store(p, Release);
+    p
+}
+
+unsafe fn raw_alloc(layout: Layout) -> *mut u8 {
+    let base = arena();
+    // only what the guest allocates has to be low; the host's bookkeeping stays on the system heap
+    if base == 0 || !GUEST.load(std::sync::atomic::Ordering::Relaxed) {
+        return unsafe { System.alloc(layout) };
+    }
+    use std::sync::atomic::Ordering::*;
+    loop {
+        let top = ARENA_TOP.load(Acquire);
+        let start = (top + layout.align() - 1) & !(layout.align() - 1);
+        let end = start + layout.size().max(1);
+        if end > base + ARENA_SIZE {
+            return std::ptr::null_mut();
+        }
+        if ARENA_TOP.compare_exchange(top, end, AcqRel, Acquire).is_ok() {
+            return start as *mut u8;
+        }
+    }
+}
+
+unsafe fn raw_dealloc(p: *mut u8, layout: Layout) {
+    let base = arena();
+    if base != 0 && (p as usize) >= base && (p as usize) < base + ARENA_SIZE {
+        // poison, never reuse
+        unsafe { std::ptr::write_bytes(p, 0xDD, layout.size()) };
+        return;
+    }
+    unsafe { System.dealloc(p, layout) }
+}
+
 unsafe impl GlobalAlloc for Ledger {
     unsafe fn alloc(&self, layout: Layout) -> *mut u8 {
-        let p = unsafe { System.alloc(layout) };
+        let p = unsafe { raw_alloc(layout) };
         let guest = GUEST.load(std::sync::atomic::Ordering::Relaxed);
         with_live(|m| m.insert(p as usize, (layout.size(), layout.align(), guest)));
         p
@@ -78,10 +164,18 @@ unsafe impl GlobalAlloc for Ledger {
             ),
             _ => {}
         }
-        unsafe { System.dealloc(p, layout) }
+        unsafe { raw_dealloc(p, layout) }
     }
     unsafe fn realloc(&self, p: *mut u8, layout: Layout, new_size: usize) -> *mut u8 {
-        let q = unsafe { System.realloc(p, layout, new_size) };
+        let base = arena();
+        let q = if base == 0 || (p as usize) < base || (p as usize) >= base + ARENA_SIZE {
+            unsafe { System.realloc(p, layout, new_size) }
+        } else {
+            let q = unsafe { raw_alloc(Layout::from_size_align(new_size, layout.align()).unwrap()) };
+            unsafe { std::ptr::copy_nonoverlapping(p, q, layout.size().min(new_size)) };
+            unsafe { raw_dealloc(p, layout) };
+            q
+        };
         let guest = GUEST.load(std::sync::atomic::Ordering::Relaxed);
         with_live(|m| {
             let tag = m.remove(&(p as usize)).map(|x| x.2).unwrap_or(guest);
@@ -100,11 +194,11 @@ pub fn track(on: bool) {
 /// not recorded) and only filled inside it, so that every block the process frees has been seen by the ledger.
 fn live_snapshot() -> BTreeMap<usize, (usize, usize)> {
     let was = GUEST.swap(false, std::sync::atomic::Ordering::Relaxed);
-    let n = with_live(|m| m.len()).unwrap_or(0);
+    let n = with_live(|m| m.guest.len()).unwrap_or(0);
     let mut v: Vec<(usize, (usize, usize))> = Vec::with_capacity(n + 64);
     with_live(|m| {
-        for (a, x) in m.iter() {
-            if x.2 && v.len() < v.capacity() {
+        for (a, x) in m.guest.iter() {
+            if v.len() < v.capacity() {
                 v.push((*a, (x.0, x.1)));
             }
         }
@@ -118,11 +212,11 @@ fn is_live_range(addr: usize, len: usize) -> bool {
     if len == 0 {
         return true;
     }
-    with_live(|m| m.range(..=addr).next_back().map(|(a, x)| addr + len <= a + x.0).unwrap_or(false)).unwrap_or(true)
+    with_live(|m| m.below(addr).map(|(a, sz)| addr + len <= a + sz).unwrap_or(false)).unwrap_or(true)
 }
 
 fn starts_inside_live_block(addr: usize) -> bool {
-    with_live(|m| m.range(..=addr).next_back().map(|(a, x)| addr < a + x.0).unwrap_or(false)).unwrap_or(false)
+    with_live(|m| m.below(addr).map(|(a, sz)| addr < a + sz).unwrap_or(false)).unwrap_or(false)
 }
 
 // ---------------------------------------------------------------- state
@@ -394,7 +488,47 @@ fn flat_to_u64(fv: &Value, addrs: &[usize]) -> u64 {
 
 // ---------------------------------------------------------------- import side
 /// called by the nativised import stubs: `key` = "<module>|<name>", args = the core arguments as u64 bit patterns
+pub type ImportHandler = fn(&str, &[u64]) -> Option<u64>;
+static HANDLER: Mutex<Option<ImportHandler>> = Mutex::new(None);
+
+/// a test program may answer some imports itself (C07: resource intrinsics and functions of a fixed world)
+pub fn set_import_handler(h: ImportHandler) {
+    *HANDLER.lock().unwrap() = Some(h);
+}
+
+/// run `f` as host bookkeeping (what it allocates is not the guest's)
+pub fn host<R>(f: impl FnOnce() -> R) -> R {
+    let was = GUEST.swap(false, std::sync::atomic::Ordering::Relaxed);
+    let r = f();
+    GUEST.store(was, std::sync::atomic::Ordering::Relaxed);
+    r
+}
+
+/// append a free-form event to the output (host mode)
+pub fn log_event(v: serde_json::Value) {
+    let was = GUEST.swap(false, std::sync::atomic::Ordering::Relaxed);
+    ST.with(|s| s.borrow_mut().as_mut().unwrap().out.push(v));
+    GUEST.store(was, std::sync::atomic::Ordering::Relaxed);
+}
+pub use serde_json;
+
+pub fn vector() -> Value {
+    let was = GUEST.swap(false, std::sync::atomic::Ordering::Relaxed);
+    let v = ST.with(|s| s.borrow().as_ref().unwrap().vector.clone());
+    GUEST.store(was, std::sync::atomic::Ordering::Relaxed);
+    v
+}
+
 pub fn import_call(key: &str, args: &[u64]) -> u64 {
+    let h = *HANDLER.lock().unwrap();
+    if let Some(h) = h {
+        let was = GUEST.swap(false, std::sync::atomic::Ordering::Relaxed);
+        let r = h(key, args);
+        GUEST.store(was, std::sync::atomic::Ordering::Relaxed);
+        if let Some(r) = r {
+            return r;
+        }
+    }
     track(false);
     let (spec, role) = ST.with(|s| {
         let b = s.borrow();
